@@ -73,6 +73,44 @@ def bool_case(b, true_val, false_val):
     return ("gamma", b, ((L0, false_val), (("notin", "0"), true_val)))
 
 
+def _not(x):
+    """boolean negation pushed through selections and folded on constants"""
+    if x == ("const", 0):
+        return ("const", 1)
+    if x == ("const", 1):
+        return ("const", 0)
+    if isinstance(x, tuple) and x and x[0] == "gamma":
+        return ("gamma", x[1], tuple((l, _not(v)) for l, v in x[2]))
+    if isinstance(x, tuple) and len(x) == 3 and x[0] == "unop" and x[1] == "Not":
+        return x[2]
+    return ("unop", "Not", x)
+
+
+def _eq_fold(callee, x, y, negate, depth=0):
+    """x == y (or !=) where a side is a selection or both are known Option/Result variants; None = leave as is"""
+    if depth > 6:
+        return None
+    for a, b, swap in ((x, y, False), (y, x, True)):
+        if isinstance(a, tuple) and a and a[0] == "gamma":
+            brs = []
+            for l, v in a[2]:
+                r = _eq_fold(callee, v if not swap else b, b if not swap else v, negate, depth + 1)
+                if r is None:
+                    r = ("call", callee, (v, b) if not swap else (b, v), None)
+                brs.append((l, r))
+            return ("gamma", a[1], tuple(brs))
+    vx, px = _agg_variant(x)
+    vy, py = _agg_variant(y)
+    if vx is not None and vy is not None:
+        if vx != vy:
+            return ("const", 1 if negate else 0)
+        if px is None and py is None:
+            return ("const", 0 if negate else 1)
+        if px is not None and py is not None:
+            return ("call", callee, (px, py), None)
+    return None
+
+
 class Normalizer:
     def __init__(self, program, summaries=None, max_depth=6):
         self.p = program
@@ -173,6 +211,9 @@ class Normalizer:
                 # `x?`: the switch is on Try::branch(x); Continue (0) <=> x is Some/Ok
                 return ("discr", self.norm(t[1][1], depth), "try")
             return ("discr", self.norm(t[1], depth)) + t[2:]
+        if k == "unop" and t[1] == "Not":
+            x = self.norm(t[2], depth)
+            return flow.simplify_term(_not(x))
         if k in ("unop", "cast"):
             return t[:-1] + (self.norm(t[-1], depth),)
         if k == "binop":
@@ -275,6 +316,11 @@ class Normalizer:
             return res_case(x, lambda pl: opt_case(pl, lambda q: some(ok(q)), NONE), lambda e: some(err(e)))
         if is_("Result::unwrap", "Result::expect"):
             return self._payload("payload", x)
+        # ---- equality of Option/Result values: distribute over selections, fold on known variants
+        if is_("PartialEq::eq", "PartialEq::ne") and n == 2:
+            r = _eq_fold(callee, a[0], a[1], is_("PartialEq::ne"))
+            if r is not None:
+                return r
         # ---- bool
         if is_("bool::then_some") and n == 2:
             return bool_case(x, some(a[1]), NONE)
@@ -313,6 +359,56 @@ def cases(t, cap=64, depth=0):
                 return [([], t)]
         return [(cs, ("agg", t[1], t[2], tuple(vals))) for cs, vals in rows]
     return [([], t)]
+
+
+def _first_gamma(t, depth=0):
+    """outermost-first search for a selection sub-term"""
+    if depth > 30 or not isinstance(t, (tuple, frozenset)):
+        return None
+    if isinstance(t, tuple) and t and t[0] == "gamma":
+        return t
+    for x in t:
+        if isinstance(x, (tuple, frozenset)):
+            g = _first_gamma(x, depth + 1)
+            if g is not None:
+                return g
+    return None
+
+
+def cases_deep(t, max_rows=64):
+    """like cases(), but splits on selections anywhere inside the value (operands of operators and calls too):
+    the full table of the value over every test that influences it"""
+    rows = [([], t)]
+    for _ in range(12):
+        new = []
+        changed = False
+        for cs, v in rows:
+            g = _first_gamma(v)
+            if g is None:
+                new.append((cs, v))
+                continue
+            changed = True
+            for l, b in g[2]:
+                v2 = summary.replace(v, g, b)
+                for c0, l0 in cs + [(g[1], l)]:
+                    v2 = flow._resolve_nested(v2, c0, l0)
+                new.append((cs + [(g[1], l)], flow.simplify_term(v2)))
+        rows = new
+        if not changed or len(rows) > max_rows:
+            break
+    out = []
+    for cs, v in rows:
+        flat = []
+        dead = False
+        for c, l in cs:
+            r = norm_cond(c, l)
+            if r is None:
+                dead = True
+                break
+            flat += r
+        if not dead and not contradictory(flat):
+            out.append((flat, v))
+    return out
 
 
 def norm_cond(c, labs, depth=0):
@@ -366,10 +462,19 @@ def conditions(N, program, body, target, terms=None, start=0):
     return out
 
 
+def canon_cond(t, l):
+    """boolean tests as positive atoms: (Not(x), l) ==> (x, flipped l)"""
+    while isinstance(t, tuple) and len(t) == 3 and t[0] == "unop" and t[1] == "Not" and (flow.lab_true(l) or flow.lab_false(l)):
+        t, l = t[2], flow._flip(l)
+        l = ("notin", "0") if flow.lab_true(l) else ("in", "0")
+    return t, l
+
+
 def contradictory(conds):
-    """syntactic: the same test required on two incompatible edges"""
+    """the same test required on two incompatible edges (boolean tests compared modulo negation)"""
     by = {}
     for t, l in conds:
+        t, l = canon_cond(t, l)
         by.setdefault(t, []).append(l)
     for t, ls in by.items():
         pos = [set(l[1:]) for l in ls if l[0] == "in"]
@@ -421,9 +526,10 @@ def _with_context(conds):
     return conds
 
 
-def rows(S, body, N=None, expand=True):
+def rows(S, body, N=None, expand=True, deep=False):
     """decision table of `body`: summary outcomes with values and conditions in normal form, selections flattened;
-    expand=False keeps calls to workspace functions as calls (the table of this body alone)"""
+    expand=False keeps calls to workspace functions as calls (the table of this body alone); deep=True also splits on
+    selections nested inside operators/calls of the value"""
     N = N or Normalizer(S.p, S)
     out = []
     for o in (S.outcomes(body) if expand else S.local_outcomes(body)):
@@ -438,7 +544,7 @@ def rows(S, body, N=None, expand=True):
             base += [(t2, l2, f, w) for t2, l2 in r]
         if dead:
             continue
-        for cs, v2 in cases(v):
+        for cs, v2 in (cases_deep(v) if deep else cases(v)):
             extra = []
             dead = False
             for t, l in cs:
@@ -452,6 +558,13 @@ def rows(S, body, N=None, expand=True):
             allc = _with_context(base + extra)
             if allc is None or contradictory([(t, l) for t, l, f, w in allc]):
                 continue
+            seen_c, ded = set(), []
+            for t, l, f, w in allc:
+                t, l = canon_cond(t, l)
+                if (t, l) not in seen_c:
+                    seen_c.add((t, l))
+                    ded.append((t, l, f, w))
+            allc = ded
             for t, l, f, w in allc:
                 v2 = flow._resolve_nested(v2, t, l)
             v2 = flow.simplify_term(v2)
